@@ -21,6 +21,9 @@ type ScriptConn struct {
 	// NoEOF: at the natural end of input return ErrWouldBlock instead of EOF
 	// (the harness feeds more later).
 	NoEOF bool
+	// BlockErr, when set, is returned instead of ErrWouldBlock (e.g. a read
+	// deadline that expires: a net.Error with Timeout() true).
+	BlockErr error
 
 	pos   int
 	chunk int
@@ -62,6 +65,9 @@ func (c *ScriptConn) Read(p []byte) (int, error) {
 			return 0, io.EOF
 		}
 		if c.NoEOF {
+			if c.BlockErr != nil {
+				return 0, c.BlockErr
+			}
 			return 0, ErrWouldBlock
 		}
 		return 0, io.EOF
@@ -87,6 +93,9 @@ func (c *ScriptConn) Read(p []byte) (int, error) {
 			return n, c.CutErr
 		}
 		return n, io.EOF
+	}
+	if c.ErrWithData && n > 0 && c.CutAt < 0 && !c.NoEOF && c.pos >= len(c.In) {
+		return n, io.EOF // the last bytes of the stream come with its end
 	}
 	return n, nil
 }
